@@ -2,6 +2,7 @@ import Proofs.DagComplete
 import Proofs.LedgerDag
 import Proofs.Conservation
 import Properties.C03
+import Proofs.Confirm
 /-!
 # C09 — the ledger is a well-formed DAG of self-authenticating vertices
 
@@ -95,5 +96,54 @@ theorem edges_exact {b : Book} (r : Reachable b) (v : Vertex) (hv : v ∈ b.vert
     rcases h with ⟨_, h2⟩ | ⟨h1, _⟩
     · exact h2
     · rw [hlive] at h1; cases h1
+
+/-! ### which tips count as valid -/
+
+/-- A tip that is not a root and moves no funds (or was sealed by a trusted node) passes `validateLeaf` only
+while BOTH its declared parents are in the live DAG: once a parent has been truncated away the tip is a dead
+end. -/
+theorem dead_end_tip_is_not_valid (b : Book) (leaf : Vertex) (hok : b.validateLeaf leaf = .ok ())
+    (hr : b.isRoot leaf.hash = false) (hc : leaf.trx.isSpice = false ∨ b.isTrusted leaf.signer = true) :
+    b.hasVertex leaf.left = true ∧ b.hasVertex leaf.right = true := by
+  unfold validateLeaf at hok
+  split at hok; · cases hok
+  split at hok; · cases hok
+  rw [hr] at hok
+  simp only [Bool.false_eq_true, if_false] at hok
+  have hcond : (!leaf.trx.isSpice || b.isTrusted leaf.signer) = true := by
+    rcases hc with h | h <;> simp [h]
+  rw [if_pos hcond] at hok
+  split at hok; · cases hok
+  rename_i h1
+  split at hok; · cases hok
+  rename_i h2
+  exact ⟨by simpa using h2, by simpa using h1⟩
+
+/-- **A created vertex references only tips that were valid at that moment**: each parent of a vertex
+`CreateLeaf` produced passed `validateLeaf` during that very call, in a book the call itself went through;
+if that parent moves no funds and is not a root there, both ITS declared parents were live there - a tip
+straddling a truncation cut is never built upon. -/
+theorem created_only_on_valid_tips (b : Book) (trx : Trx) (o1 o2 : List Hash) (tip v : Vertex)
+    (h : (b.createLeafLocked trx o1 o2 tip).2 = .ok v) :
+    ∃ l r, v.left = l.hash ∧ v.right = r.hash ∧
+      (∃ bm, Steps b bm ∧ l ∈ bm.verts ∧ bm.validateLeaf l = .ok () ∧
+        (bm.isRoot l.hash = false → l.trx.isSpice = false → bm.hasVertex l.left = true ∧ bm.hasVertex l.right = true)) ∧
+      (∃ bm, Steps b bm ∧ r ∈ bm.verts ∧ bm.validateLeaf r = .ok () ∧
+        (bm.isRoot r.hash = false → r.trx.isSpice = false → bm.hasVertex r.left = true ∧ bm.hasVertex r.right = true)) := by
+  obtain ⟨l, r, ⟨bl, sl, ml, vl⟩, ⟨br, sr, mr, vr⟩, el, er, _⟩ := createLeafLocked_parents_validated b trx o1 o2 tip v h
+  exact ⟨l, r, el, er,
+    ⟨bl, sl, ml, vl, fun hr hs => dead_end_tip_is_not_valid bl l vl hr (Or.inl hs)⟩,
+    ⟨br, sr, mr, vr, fun hr hs => dead_end_tip_is_not_valid br r vr hr (Or.inl hs)⟩⟩
+
+/-- Non-vacuity: vertex 9 moves no funds, its right parent 3 is live, its left parent 99 is not (truncated
+away): it does not pass, while the same vertex over two live parents does. -/
+def straddler : Vertex := ⟨9, "m", 99, 3, 2, ⟨10, "w", "y", ⟨0, 0⟩, true⟩, true⟩
+def withStraddler : Book :=
+  let b := Props.C03.b2.addTrusted "n"
+  { b with verts := b.verts ++ [straddler], edges := b.edges ++ [(3, 9)] }
+example : withStraddler.isRoot 9 = false ∧ straddler.trx.isSpice = false ∧
+    (match withStraddler.validateLeaf straddler with | .error e => e | .ok _ => []) = [.leafRejected, .idUnknown] ∧
+    (match withStraddler.validateLeaf { straddler with left := 3 } with | .error e => e | .ok _ => []) = [] := by
+  refine ⟨?_, ?_, ?_, ?_⟩ <;> decide +kernel
 
 end Props.C09
